@@ -14,6 +14,7 @@ import (
 	"github.com/go-shiori/dom"
 	"github.com/markusmobius/go-domdistiller/internal/extractor"
 	"github.com/markusmobius/go-domdistiller/internal/label"
+	"github.com/markusmobius/go-domdistiller/internal/tableclass"
 	"github.com/markusmobius/go-domdistiller/internal/webdoc"
 	"golang.org/x/net/html"
 )
@@ -145,3 +146,12 @@ func VerifExtract(root *html.Node, pageURL *nurl.URL, flags LogFlag) *VerifExtra
 		Doc:        doc,
 	}
 }
+
+// VerifClassifyTable runs the real table classifier (fresh instance, no logger).
+func VerifClassifyTable(t *html.Node) (string, string) {
+	tp, reason := tableclass.NewClassifier(nil).Classify(t)
+	return tp.String(), reason.String()
+}
+
+// VerifValidText is the classifier's "has valid text" test.
+func VerifValidText(e *html.Node) bool { return tableclass.VerifHasValidText(e) }
